@@ -34,7 +34,7 @@ type c18RowState struct {
 	ret     int64
 }
 
-var c18Pad = strings.Repeat("p", 300)
+var c18Pad = strings.Repeat("p", 1500)
 
 func (s c18RowState) same(o c18RowState) bool {
 	return s.Present == o.Present && s.Tag == o.Tag && s.Log == o.Log && s.G == o.G
